@@ -409,6 +409,18 @@ VARIANTS = [
      rep_in(FHS, "_get_hashstore_metadata_path", "            if os.path.isfile(metadata_relative_path):\n", "            if False:\n")),
     ("C20", "C20.d", "client default namespace hard-coded instead of read from the store configuration",
      rep_in(CLI, "main", '        default_formatid = yaml_data["store_metadata_namespace"]\n', '        default_formatid = "https://ns.dataone.org/service/types/v2.0#SystemMetadata"\n')),
+    ("C01", "C01.b", "Stream opens the lexically normalised path instead of the path it was given",
+     rep(FHS, '            obj = io.open(obj, "rb")\n', '            obj = io.open(os.path.normpath(obj), "rb")\n')),
+    ("C09", "C09.e", "temp file created unbuffered: short writes go unnoticed",
+     rep_in(FHS, "_mktmpfile", "        tmp = NamedTemporaryFile(dir=path, delete=False)\n", "        tmp = NamedTemporaryFile(dir=path, delete=False, buffering=0)\n")),
+    ("C09", None, "twin: temp file created with an explicit buffer size",
+     rep_in(FHS, "_mktmpfile", "        tmp = NamedTemporaryFile(dir=path, delete=False)\n", "        tmp = NamedTemporaryFile(dir=path, delete=False, buffering=65536)\n")),
+    ("C07", "C07.h", "empty shard directory pruned after the unlink",
+     rep_in(FHS, "_delete_marked_files", "                    os.remove(obj)\n", "                    os.remove(obj)\n                    os.rmdir(os.path.dirname(obj))\n")),
+    ("C06", "C06.b", "verdict compares the size of the stream's backing file, not of the temp file written",
+     rep_in(FHS, "_write_to_tmp_file_and_get_hex_digests", "            tmp_file_size = os.path.getsize(tmp.name)\n", "            tmp_file_size = os.path.getsize(stream._obj.name)\n")),
+    ("C02", "C02.b", "_computehash hands the caller's spelling to hashlib",
+     rep_in(FHS, "_computehash", "            check_algorithm = self._clean_algorithm(algorithm)\n            hash_obj = hashlib.new(check_algorithm)\n", "            self._clean_algorithm(algorithm)\n            hash_obj = hashlib.new(algorithm)\n")),
     ("C13", "C13.h", "return inside finally swallows the error",
      rep_in(FHS, "_delete_object_only", "        finally:\n            self._release_object_locked_cids(cid)\n", "        finally:\n            self._release_object_locked_cids(cid)\n            return\n")),
 ]
@@ -424,8 +436,9 @@ def _run_one(args):
         A = Analysis(prog)
         rules = registry()[prop](A, "quick")
         problems = A.problems()
-        kn = {k["key"] for k in load_known().get("known", []) if k.get("property") == prop}
-        found = sorted({f.rule for r in rules for f in r.findings if f.key not in kn})
+        from .report import split_known
+        new, _old = split_known([f for r in rules for f in r.findings], [k for k in load_known().get("known", []) if k.get("property") == prop])
+        found = sorted({f.rule for f in new})
         floors = [r.rid for r in rules if len(r.instances) < (max(1, (r.floor + 2) // 3) if r.floor else 0)]
         return (idx, found, problems[:2], floors, None)
     except AnalysisError as e:
